@@ -998,6 +998,7 @@ class RealCompareMacro(Macro):
 
     def eval(self, goal, prevs=[]):
         assert goal.is_compares(), "real_compare_macro: Should be an inequality term"
+        assert goal.arg1.get_type() == RealType, "real_compare_macro: Should compare real numbers"
         lhs, rhs = real_eval(goal.arg1), real_eval(goal.arg)
         if goal.is_less():
             assert lhs < rhs, "%f !< %f" % (lhs, rhs)
